@@ -15,7 +15,7 @@ META = {
     "for 'same index = same (field, point, component)'); mesh coordinates and side lengths are symbolic so that coordinate predicates (np.isclose, min/max) fork; on every feasible path the index sets are "
     "concrete and the value identities / membership predicates are refuted by z3",
     "bounds": [
-        "containers with 1-3 fields incl. a dual field of different size and a mesh with a point without cells; masks: point masks, dof masks; overlapping boundaries; scalar and array values",
+        "containers with 1-3 fields incl. a dual field of different size and a mesh with a point without cells (first / last point number; vector + scalar field on the same mesh); masks: point masks, dof masks; overlapping boundaries; scalar and array values",
         "coordinate predicates: one quad cell with symbolic corner coordinates (8 variables), fx / fy values, modes or/and, skip tuples: every feasible mask pattern is a path (bounded 64)",
         "load cases symmetry / uniaxial / biaxial / shear with all axis / sym / clamped arguments on a 3x3 (2-D) and 2x2x2 (3-D) grid whose side lengths are symbolic",
     ],
@@ -78,7 +78,8 @@ def case_partition_masks(ctx, variant):
         region = fem.RegionQuad(m)
         if variant == "mixed":
             field = fem.FieldsMixed(region, n=3)
-        elif variant == "scalar_same_mesh":
+        elif variant in ("scalar_same_mesh", "scalar_same_mesh_last"):
+            # ("_last": the cell-less point has the HIGHEST point number, so its unknown of the scalar field sits at npnt - 1, not at dim * (npnt - 1))
             field = fem.FieldContainer([fem.Field(region, dim=2), fem.Field(region, dim=1)])
         else:
             field = fem.FieldContainer([fem.Field(region, dim=2)])
@@ -106,7 +107,7 @@ def case_partition_masks(ctx, variant):
         qj = np.zeros(field[2].values.shape[0], dtype=bool)
         qj[0] = True
         bounds["J"] = fem.Boundary(field[2], mask=qj, value=ctx.var("val_J", -1, 1))
-    if variant == "scalar_same_mesh":
+    if variant in ("scalar_same_mesh", "scalar_same_mesh_last"):
         qs = np.zeros(npnt, dtype=bool)
         qs[2] = True
         bounds["s"] = fem.Boundary(field[1], mask=qs, value=ctx.var("val_s", -1, 1))
@@ -122,6 +123,8 @@ def case_partition_masks(ctx, variant):
     elif variant != "plain":
         for c in range(2):
             exp0.add(gindex(field, 0, npnt - 1, c))
+        if variant == "scalar_same_mesh_last":
+            exp0.add(gindex(field, 1, npnt - 1, 0))
     ctx.check_concrete("prescribed_set_is_union_of_boundaries_and_cellless_points", set(dof0.tolist()) == exp0)
     ctx.check_concrete("partition_is_disjoint_and_covering", set(dof0.tolist()).isdisjoint(dof1.tolist()) and sorted(dof0.tolist() + dof1.tolist()) == list(range(n)))
     ctx.check_concrete("sorted_unique", list(dof0) == sorted(set(dof0.tolist())) and list(dof1) == sorted(set(dof1.tolist())))
@@ -388,7 +391,7 @@ def case_loadcase_explicit(ctx, which, clamped=False):
 
 def cases(tier):
     out = [("numbering", case_numbering, {})]
-    for v in ("plain", "cellless", "mixed", "scalar_same_mesh"):
+    for v in ("plain", "cellless", "mixed", "scalar_same_mesh", "scalar_same_mesh_last"):
         out.append(("partition_masks", case_partition_masks, {"variant": v}))
     out.append(("array_values", case_array_values, {}))
     for mode in ("and", "or"):
